@@ -13,6 +13,17 @@ def _end_to_py(e):
     return sys.maxsize if e >= FOREVER else e
 
 
+def _end_from_py(e):
+    return FOREVER if e >= sys.maxsize else e
+
+
+class _Idle(System):
+    """A system of the shadow model: does nothing."""
+
+    def execute(self):
+        pass
+
+
 def outcome(exc):
     if exc is None:
         return "ok"
@@ -115,14 +126,44 @@ class SchedWorld:
                     self.ids.append(obj[0])
             else:
                 inst.priority, inst.start, inst.end, inst.frequency, inst.script = prio, start, _end_to_py(end), freq, script
+        self.nadd = getattr(self, "nadd", 0) + 1
+        if getattr(self, "shadow", None) is not None and self.nadd % 2 == 0:
+            try:
+                self.shadow.systems.add_system(_Idle(obj[0], self.shadow, priority=-prio, frequency=freq + 1, start=start + 1,
+                                                     end=_end_to_py(end)))
+            except KeyError:
+                pass
         exc = None
         t = self._t()
         try:
             (self.model.systems.addSystem if ALIAS[0] else self.model.systems.add_system)(inst)
         except Exception as e:  # noqa: BLE001
             exc = e
+        if getattr(self, "shadow", None) is not None and self.nadd % 2 == 1:
+            # another model, alive at the same time, registers a system under the SAME id with a shifted window and other priority
+            # (after this model's registration here, before it for every other registration)
+            try:
+                self.shadow.systems.add_system(_Idle(obj[0], self.shadow, priority=-prio, frequency=freq + 1, start=start + 1,
+                                                     end=_end_to_py(end)))
+            except KeyError:
+                pass
         self.events.append({"op": "add_system", "obj": list(obj), "prio": prio, "start": start, "end": end,
                             "freq": freq, "t": t, "out": outcome(exc), "obs": self.obs()})
+
+    def churn(self, sid, n):
+        """The registered system `sid` is removed and registered again n times in a row (a seasonal system switched off and on):
+        after the first round trip the registry is the same after every further one, so only the last is logged."""
+        inst = self.model.systems[sid]
+        if inst is None:
+            return
+        obj = next((o for o, i in self.objects.items() if i is inst), None)
+        if obj is None:
+            return
+        for _ in range(max(n - 1, 0)):
+            self.model.systems.remove_system(sid)
+            self.model.systems.add_system(inst)
+        self.remove(sid)
+        self.add(obj, inst.priority, (inst.start, _end_from_py(inst.end), inst.frequency), inst.script)
 
     def remove(self, sid, via=None):
         exc = None
@@ -131,7 +172,7 @@ class SchedWorld:
             if via is not None:
                 via.clean_up()
             else:
-                (self.model.systems.removeSystem if ALIAS[0] else self.model.systems.remove_system)(sid)
+                (self.model.systems.removeSystem if ALIAS[0] else self.model.systems.remove_system)("".join(list(sid)))   # equal, not identical
         except Exception as e:  # noqa: BLE001
             exc = e
         self.events.append({"op": "remove_system", "id": sid, "t": t, "out": outcome(exc), "obs": self.obs()})
@@ -146,6 +187,8 @@ class SchedWorld:
         self.events.append({"op": "complete", "t": t, "out": outcome(exc), "obs": self.obs()})
 
     def execute(self, n=1, via="execute"):
+        if getattr(self, "shadow", None) is not None:
+            self.shadow.execute()          # the other model is stepped in between
         self.events.append({"op": "exec_begin", "n": n, "via": via})
         exc = None
         try:
@@ -214,6 +257,10 @@ def run_program(prog):
             w.exec_reject(op[1])
         elif k == "lookup":
             w.lookup(op[1], op[2])
+        elif k == "churn":
+            w.churn(op[1], op[2])
+        elif k == "shadow":
+            w.shadow = Model()
         else:
             raise AssertionError(op)
     return w.events
@@ -274,8 +321,12 @@ def random_script(rng, ids, serial_of, p_mut):
 def random_program(rng, *, n_ids=5, prios=(-2, -1, 0, 1, 2), length=30, p_mut=0.0, p_complete=0.02,
                    windows=False, wide=False, multi=True):
     ids = [chr(ord("a") + k) for k in range(n_ids)]
+    if n_ids >= 3:
+        ids[2] = ""            # identifiers are strings - the empty one included
     serials = {i: 1 for i in ids}
     prog = [["logger", "quiet"]] if rng.random() < 0.3 else []
+    if rng.random() < 0.3:
+        prog.append(["shadow"])
 
     def serial_of(i):
         # mostly re-use object 1, sometimes a fresh object with the same id
@@ -291,6 +342,8 @@ def random_program(rng, *, n_ids=5, prios=(-2, -1, 0, 1, 2), length=30, p_mut=0.
             prog.append(["add", [i, serial_of(i)], rng.choice(prios), win, random_script(rng, ids, serial_of, p_mut)])
         elif r < 0.55:
             prog.append(["remove", rng.choice(ids)])
+            if rng.random() < 0.03:
+                prog.append(["churn", rng.choice(ids), rng.choice([5000, 70000])])
         elif r < 0.55 + p_complete:
             prog.append(["complete"])
         elif r < 0.62 and multi:
